@@ -74,7 +74,7 @@ contract(
     # d/dx K_n(x) = -(K_{n-1}(x) + K_{n+1}(x)) / 2, with K_{-m} = K_m (assumed: DLMF 10.29.1, 10.27.3)
     ensures=lambda a, r: {"derivative": eq(r, a.g * (-(K(a.n - 1, a.x) + K(a.n + 1, a.x)) / 2))},
     gen=lambda rng, case: dict(ans=0.0, n=rng.choice([0, 0, 1, 2, 3, 6]), x=rng.uniform(0.1, 10), g=rng.choice([-2.0, 0.5, 3.0])),
-    native_call=_native_vjp, crosscheck=False,
+    native_call=_native_vjp, crosscheck=False, abstract_nl=False,
     slice_note="the lambda registered by defvjp(kn, None, <lambda>) at module level; argument 0 (the order) has no derivative (None)",
 )
 
